@@ -94,6 +94,7 @@ class Server:
         self.cap = None
         self.shell = None
         self.location = "package"
+        self.nb_single_cell = False
         self.main_alias = {}     # package-style module name -> module object standing in for it (__main__ / notebook)
 
     def resolve(self, modn):
@@ -121,7 +122,7 @@ class Server:
             src = f.read()
         shell = InteractiveShell.instance()
         self.shell = shell
-        cells = [c for c in src.split("\n\n\n") if c.strip()]
+        cells = [src] if self.nb_single_cell else [c for c in src.split("\n\n\n") if c.strip()]
         for c in cells:
             r = shell.run_cell(c, store_history=True, silent=True)
             if r.error_before_exec or r.error_in_exec:
@@ -165,6 +166,7 @@ class Server:
         k = cmd["cmd"]
         if k == "init":
             self.location = cmd.get("location", "package")
+            self.nb_single_cell = bool(cmd.get("nb_single_cell"))
             for (key, value) in cmd.get("options", []):
                 dds.set_option(key, value)
             if cmd.get("cwd"):
